@@ -32,6 +32,7 @@ the phase shell's cwd is a scratch directory and the daemon's stdin is /dev/null
 from __future__ import annotations
 
 import os
+import signal
 import time
 import types
 
@@ -358,8 +359,9 @@ def check_env(ctx, dm: Daemon, case, record=True):
     hang = None
     try:
         try:
-            with ebd.alarm(TIMEOUT, "send_env reply"):
-                ok = core.guarded(ctx, case, lambda: ebp.send_env(env, tmpdir=dm.cwd if transport == "file" else None))
+            with _AccountingAlarm(tee, "start_receiving_env bytes ", "send_env reply"):
+                ok = core.guarded(ctx, case, lambda: ebp.send_env(env, tmpdir=dm.cwd if transport == "file" else None),
+                                  expected=(ebd.EbdHang,))
         except ebd.EbdHang as e:
             hang = e
     finally:
@@ -373,14 +375,13 @@ def check_env(ctx, dm: Daemon, case, record=True):
     # ---- byte accounting (inline): announced count vs bytes really sent
     count_ok = True
     if transport == "inline":
-        head, sep, payload = written.partition("\n")
-        pfx = "start_receiving_env bytes "
-        if not sep or not head.startswith(pfx) or not head[len(pfx):].isdigit():
-            viol("inline:bad-header", f"send_env wrote header {head[:80]!r}")
+        acc = _announced_vs_sent(written, "start_receiving_env bytes ")
+        if acc is None:
+            viol("inline:bad-header", f"send_env wrote {written[:80]!r}")
             dm.kill()
             return reported
-        announced = int(head[len(pfx):])
-        actual = len(payload.encode("utf8"))
+        announced, actual = acc
+        payload = written.partition("\n")[2]
         if announced != actual:
             count_ok = False
             viol("byte-count:inline" + (":nonascii" if not payload.isascii() else ""),
@@ -444,6 +445,45 @@ def check_env(ctx, dm: Daemon, case, record=True):
     return reported
 
 
+def _announced_vs_sent(written, prefix):
+    """(announced, payload bytes) of the last `<prefix>N\\n<payload>` pkgcore wrote, or None if there is no such header"""
+    pos = written.rfind(prefix)
+    if pos < 0:
+        return None
+    head, sep, payload = written[pos:].partition("\n")
+    num = head[len(prefix):]
+    if not sep or not num.isdigit():
+        return None
+    return int(num), len(payload.encode("utf8"))
+
+
+class _AccountingAlarm:
+    """bounds a blocking transfer: after SHORT seconds the recorded traffic is inspected - if pkgcore announced a
+    count different from the bytes it sent, waiting longer is pointless (the daemon waits for bytes that will never
+    come, or has already misread the stream) and EbdHang is raised at once; otherwise wait up to TIMEOUT."""
+    SHORT = 8
+
+    def __init__(self, tee, prefix, what):
+        self.tee, self.prefix, self.what = tee, prefix, what
+        self.left = TIMEOUT
+
+    def _fire(self, *a):
+        acc = _announced_vs_sent("".join(self.tee.rec or []), self.prefix)
+        self.left -= self.SHORT
+        if (acc is not None and acc[0] != acc[1]) or self.left <= 0:
+            raise ebd.EbdHang(f"no reply while waiting for {self.what}")
+        signal.setitimer(signal.ITIMER_REAL, min(self.SHORT, self.left))
+
+    def __enter__(self):
+        self.old = signal.signal(signal.SIGALRM, self._fire)
+        signal.setitimer(signal.ITIMER_REAL, self.SHORT)
+
+    def __exit__(self, *a):
+        signal.setitimer(signal.ITIMER_REAL, 0)
+        signal.signal(signal.SIGALRM, self.old)
+        return False
+
+
 def _main_loop_alive(ebp):
     with ebd.alarm(TIMEOUT, "main loop alive reply"):
         ebp.write("alive")
@@ -455,8 +495,9 @@ def _first_risky(items):
     order = []
     for _, v, _ in items:
         order.append(root_cause(v))
-    pri = sorted(order, key=lambda r: (0 if r.startswith("seq-element") else 1 if r.endswith(":backslash") else
-                                       2 if r.startswith("scalar-with") else 3, r))
+    pri = sorted(order, key=lambda r: (0 if r.startswith("seq-element") and not r.endswith(":plain") else
+                                       1 if r == "scalar-with-squote:backslash" else
+                                       2 if r.startswith("scalar-with") else 3 if r.startswith("seq-element") else 4, r))
     return pri[0] if pri else "empty-env"
 
 
@@ -531,7 +572,7 @@ def _check_depend(ctx, dm, case, env, names, out, viol, symptom, reported):
     res = None
     try:
         try:
-            with ebd.alarm(TIMEOUT, "gen_metadata reply"):
+            with _AccountingAlarm(tee, "gen_metadata ", "gen_metadata reply"):
                 res = core.guarded(ctx, case, lambda: ebp._run_depend_like_phase(
                     "gen_metadata", pkg, None, env=env, extra_commands={"key": receive_key}) or True,
                     expected=(ebd.EbdHang,))
@@ -600,10 +641,11 @@ def _check_depend(ctx, dm, case, env, names, out, viol, symptom, reported):
 # ---------------------------------------------------------------------------------------------
 
 def plan(tier, seed):
+    # ~20-40 ms per environment on an idle machine (one phase session, three harness chunks, one child process)
     if tier == "quick":
-        return [{"task": "hyp", "examples": 110, "transports": tr}
+        return [{"task": "hyp", "examples": 160, "transports": tr}
                 for tr in (["inline"], ["file"], ["inline", "file"], ["depend"]) for _ in range(4)]
-    return [{"task": "hyp", "examples": 900, "transports": tr}
+    return [{"task": "hyp", "examples": 1500, "transports": tr}
             for tr in (["inline"], ["file"], ["inline", "file"], ["depend"]) for _ in range(8)]
 
 
